@@ -259,4 +259,60 @@ fn range_nth_h<T: 'static>(splice: bool, back: bool) {
     core::mem::forget(v);
 }
 
+/// Provided `Iterator` methods of the reference iterators agree with their `next()`-based definitions (they
+/// are core code today; an "optimised" override added to the library would be new code outside the
+/// next / next_back contracts).  Bounded: at most 2 items remain (the provided methods loop over `next()`).
+fn iter_provided_h<T: 'static>(mutable: bool) {
+    ghost_init();
+    let (len, cap) = sym_state();
+    let mut v = unsafe { mk_vec::<dyn None, T>(0, len, cap, false, true) };
+    reg(&v, 0);
+    let esz = size_of::<T>();
+    let tid = TypeId::of::<T>();
+    let i = any_narrow();
+    let e = any_narrow();
+    kani::assume(i <= e && e <= len && e - i <= 2);
+    let rem = e - i;
+    let n: usize = kani::any();
+    kani::assume(n <= 2);
+    let which: u8 = kani::any();
+    kani::assume(which < 6);
+    macro_rules! body { ($it:expr) => {{
+        let mut it = $it;
+        it.index = i;
+        it.end = e;
+        if which == 0 {
+            kani::assert(it.count() == rem, "count() == items still to come");
+        } else if which == 1 {
+            let r = it.last();
+            kani::assert(r.is_some() == (rem > 0), "last() is None exactly for an exhausted iterator");
+            if let Some(item) = r { check_elem(&*item, esz, base(0) + (e - 1) * esz, tid); }
+        } else if which == 2 {
+            let r = it.nth(n);
+            kani::assert(r.is_some() == (n < rem), "nth(n) yields an element exactly when more than n remain");
+            if let Some(item) = r { check_elem(&*item, esz, base(0) + (i + n) * esz, tid); }
+            kani::assert(it.len() == if n < rem { rem - n - 1 } else { 0 }, "nth(n) consumes min(n + 1, remaining) items");
+        } else if which == 3 {
+            let r = it.nth_back(n);
+            kani::assert(r.is_some() == (n < rem), "nth_back(n) yields an element exactly when more than n remain");
+            if let Some(item) = r { check_elem(&*item, esz, base(0) + (e - 1 - n) * esz, tid); }
+            kani::assert(it.len() == if n < rem { rem - n - 1 } else { 0 }, "nth_back(n) consumes min(n + 1, remaining) items");
+        } else if which == 4 {
+            let mut r = it.rev();
+            let x = r.next();
+            kani::assert(x.is_some() == (rem > 0), "rev().next() is next_back()");
+            if let Some(item) = x { check_elem(&*item, esz, base(0) + (e - 1) * esz, tid); }
+            kani::assert(r.len() == if rem > 0 { rem - 1 } else { 0 }, "rev() keeps the exact size");
+        } else {
+            let k = it.fold(0usize, |a, _| a + 1);
+            kani::assert(k == rem, "fold visits exactly the items still to come");
+        }
+    }}}
+    if mutable { body!(v.iter_mut()) } else { body!(v.iter()) }
+    kani::assert(g().total_destroyed == 0 && g().n_moves == 0 && g().n_clone_calls == 0, "iterating by reference owns nothing");
+    kani::cover!(rem == 2 && which == 3 && n == 1, "COV nth_back(1) of two");
+    kani::cover!(true, "REACHED");
+    core::mem::forget(v);
+}
+
 include!("k1_handles.inst.rs");
